@@ -13,6 +13,7 @@ import (
 // checkGlobLiteralDir (R16.5): only the pattern is a glob; the package directory is matched literally.
 func checkEmbedSyntaxAndGlob(c *Ctx, p *packages.Package) {
 	checkUnadjustedPositions(c, p)
+	checkRelPathSeparator(c, p)
 	c.Rule("R16.4", "a //go:embed directive is recognised only at the very start of the comment text (no white space between // and go:embed)", 1)
 	c.Rule("R16.5", "glob metacharacters in the package directory are matched literally: the directory is quoted (or globbing is relative to it) before the pattern is appended", 1)
 	info := p.TypesInfo
@@ -131,9 +132,9 @@ func recvNamed(f *types.Func) string {
 	if !ok || sig.Recv() == nil {
 		return ""
 	}
-	t := sig.Recv().Type()
+	t := types.Unalias(sig.Recv().Type())
 	if p, ok := t.(*types.Pointer); ok {
-		t = p.Elem()
+		t = types.Unalias(p.Elem())
 	}
 	if n, ok := t.(*types.Named); ok {
 		return n.Obj().Name()
